@@ -40,7 +40,7 @@ static rc::Gen<Step> genStep(const std::string &focus)
 				rng<int>(0, 15), rng<int>(0, 5), gen::weightedOneOf<int>({{3, rng<int>(0, 3)}, {focus == "C04" ? 3 : 1, rng<int>(4, 7)}}), rng<int>(0, 255));
 	int wiv = focus == "C17" ? 1 : 4;
 	auto ivg = gen::weightedOneOf<int>({{wiv, gen::element<int>(6, 8, 1, 17, 18)}, {2, rng<int>(0, IV_N - 1)}});
-	auto idle = gen::weightedElement<int>({{10, I_TIMEOUT}, {2, I_INTR}, {3, I_CLOSE}, {2, I_ERROR}, {3, I_NOTIFY}, {focus == "C07" || focus == "C05" ? 3 : 1, I_STOP_RESTART}, {focus == "C17" ? 4 : 1, I_LATE_INTR}});
+	auto idle = gen::weightedElement<int>({{10, I_TIMEOUT}, {2, I_INTR}, {3, I_CLOSE}, {2, I_ERROR}, {3, I_NOTIFY}, {focus == "C07" || focus == "C05" ? 3 : 1, I_STOP_RESTART}, {focus == "C17" ? 4 : 1, I_LATE_INTR}, {focus == "C07" ? 4 : 1, I_STOP_MIDSYNC}});
 	auto part3 = gen::tuple(ivg, ivg, ivg, rng<int>(0, 255), gen::weightedElement<int>({{4, 0}, {2, 1}, {3, 2}, {1, 3}}), gen::weightedElement<int>({{5, 0}, {1, 1}}), idle, idle, idle,
 				rng<int>(0, 255), gen::container<std::vector<uint8_t>>(gen::arbitrary<uint8_t>()));
 	return gen::apply(
